@@ -89,6 +89,23 @@ def check(run, model, tier):
     # ---- loads
     ldefs = local_defs(loads.node)
     jl = [c for c in shallow_calls(loads.node) if dotted(c.func) in ('json.loads',)]
+    if len(jl) == 0:
+        # the decoding may sit in a helper that the normaliser left alone because it is decorated: a memoising decorator there is the defect itself
+        for c_ in shallow_calls(loads.node):
+            if isinstance(c_.func, ast.Name):
+                hf = model.funcs.get('event.' + c_.func.id) if hasattr(model, 'funcs') else None
+                if hf is None:
+                    hf = next((f_ for f_ in model.all_funcs() if f_.name == c_.func.id and f_.module.name == 'event' and f_.owner_class is None), None)
+                if hf is not None and any(dotted(x.func) == 'json.loads' for x in shallow_calls(hf.node)):
+                    decos = [norm(d_) for d_ in hf.node.decorator_list]
+                    memo = [d_ for d_ in decos if any(k_ in d_ for k_ in ('lru_cache', 'cache', 'memoize', 'memoise'))]
+                    run.rule('TABLE.json-plain', 'json.dumps / json.loads are called without hooks that rewrite values, and every loads() call decodes afresh')
+                    run.inst('TABLE.json-plain', loads, 'every Event.loads call decodes its text afresh', not memo,
+                             '' if not memo else ('Event.loads decodes through %s, which is memoised (%s): events loaded from equal text share one payload object, so a receiver that changes '
+                                                  'its payload in place changes what every later loads() of that text returns - the round trip no longer gives an equal payload'
+                                                  % (hf.qualname, ', '.join(memo))), node=c_, obligation=True)
+                    if memo:
+                        return
     if len(jl) != 1:
         raise AnalysisError('Event.loads: expected one json.loads call, found %d' % len(jl))
     # the codec is trusted to be an inverse pair only in its plain form: a decoding/encoding hook rewrites the payload itself
